@@ -158,8 +158,11 @@ class Tr:
                     raise Unsupported("T operator %s at %s" % (op, where(n)))
                 return "(%s K %s %s)" % (f, a, b), 'T'
             if sa in ('u', 'i'):
-                if op == '<':
-                    return "(%s <? %s)" % (a, b), 'b'
+                if op in ('<', '>', '<=', '>=', '==', '!='):
+                    # the operands are already wrapped values, so the comparison is that of the integers
+                    g = {'<': "(%s <? %s)" % (a, b), '>': "(%s <? %s)" % (b, a), '<=': "(%s <=? %s)" % (a, b), '>=': "(%s <=? %s)" % (b, a),
+                         '==': "(%s =? %s)" % (a, b), '!=': "(negb (%s =? %s))" % (a, b)}[op]
+                    return g, 'b'
                 f = {'+': '+', '-': '-', '*': '*', '/': '/', '%': 'mod'}.get(op)
                 if not f:
                     raise Unsupported("integer operator %s at %s" % (op, where(n)))
@@ -268,9 +271,12 @@ def translate_function(docs, name, gname, known, uses_K, members=None, ret_sort=
     if members:
         for m, s in members:
             sig.append("(%s : %s)" % (m, GT[s]))
-    for p in params:
+    for i, p in enumerate(params):
         q = p["type"]["qualType"]
         s = sort_of_type(q)
+        if "name" not in p:
+            # unnamed (unused) parameter: keep its position in the signature under a fresh binder
+            p = dict(p, name="unnamed_arg%d" % i)
         if s is None:
             raise Unsupported("parameter %s of type %s" % (p["name"], q))
         env[p["name"]] = (p["name"], s)
